@@ -8,6 +8,11 @@ import PyxModel.Prebuild.Ast
     * whether `NS::f(...)` was written with `bridge` / `transform` or bare: the prebuilder resolves a bare
       `ImplicitInvocationNode` exactly like this (`accept_ImplicitInvocationNode`: external entity first, then class,
       else port) and sourcegen prints the keyword from the resolved kind
+    * the letter case of the keyword `self` where it stands for an instance name (delete / relate / unrelate):
+      `find_symbol` folds it and the variable is printed `self`; NO other name is folded
+    * the spelling of a relationship NUMBER (`R01`, `r1` = `R1`): looked up by `int(rel_id[1:])`, printed `'R' + str(Numb)`
+    * the meaning of an event (`E1:'meaning'`): sourcegen prints the modelled `SM_EVT.Mning`, the source may omit it
+  This list is complete: every other field of every node is compared as the parser delivered it.
   `assign`, `then`, `loop`, `instances of`, redundant parentheses and un-ticked phrases are already gone in the
   tree `oal.parse` delivers.
 -/
@@ -46,6 +51,38 @@ mutual
     | .cons n e rest => .cons n (canonExpr ctx e) (canonParams ctx rest)
 end
 
+/-- an instance name in delete / relate / unrelate is a variable name or the keyword `self`; the keyword may be
+    spelled in any letter case (the prebuilder's `find_symbol` folds it, sourcegen prints the variable `self`);
+    every other name is case-sensitive and left alone -/
+def canonName (n : String) : String := if lowerStr n = "self" then "self" else n
+
+def stripZeros : List Char → List Char
+  | '0' :: d :: ds => stripZeros (d :: ds)
+  | ds => ds
+
+def isRelHead (c : Char) : Bool := c == 'R' || c == 'r'
+
+def canonRelL : List Char → Option (List Char)
+  | c :: d :: ds =>
+    if isRelHead c && (d :: ds).all Char.isDigit then some ('R' :: stripZeros (d :: ds)) else none
+  | _ => none
+
+/-- a relationship id is a NUMBER: the prebuilder looks the association up by `int(rel_id[1:])` and sourcegen
+    prints `'R' + str(Numb)`, so `R01`, `r1` and `R1` are the same relationship -/
+def canonRel (s : String) : String :=
+  match canonRelL s.toList with
+  | some l => String.ofList l
+  | none => s
+
+def canonStep (s : Step) : Step := { s with rel := canonRel s.rel }
+
+/-- the meaning of an event is printed from the MODEL (`SM_EVT.Mning`), whatever the source states (it may omit
+    it): the normal form carries the modelled meaning -/
+def canonMeaning (ctx : Ctx) (label : String) (m : Option String) : Option String :=
+  match ctx.events.lookup label with
+  | some mm => some mm
+  | none => m
+
 def canonTo (ctx : Ctx) : EvtTo → EvtTo
   | .cls kl => .cls kl
   | .creator kl => .creator kl
@@ -61,21 +98,22 @@ mutual
     | .ctl => .ctl
     | .create v kl => .create v kl
     | .createNV kl => .createNV kl
-    | .delete v => .delete v
-    | .relate a b rel ph => .relate a b rel ph
-    | .relateU a b rel ph u => .relateU a b rel ph u
-    | .unrelate a b rel ph => .unrelate a b rel ph
-    | .unrelateU a b rel ph u => .unrelateU a b rel ph u
+    | .delete v => .delete (canonName v)
+    | .relate a b rel ph => .relate (canonName a) (canonName b) (canonRel rel) ph
+    | .relateU a b rel ph u => .relateU (canonName a) (canonName b) (canonRel rel) ph (canonName u)
+    | .unrelate a b rel ph => .unrelate (canonName a) (canonName b) (canonRel rel) ph
+    | .unrelateU a b rel ph u => .unrelateU (canonName a) (canonName b) (canonRel rel) ph (canonName u)
     | .selFrom card v kl => .selFrom (lowerStr card) v kl
     | .selFromW card v kl w => .selFromW (lowerStr card) v kl (canonExpr ctx w)
-    | .selRel card v h chain => .selRel (lowerStr card) v (canonExpr ctx h) chain
-    | .selRelW card v h chain w => .selRelW (lowerStr card) v (canonExpr ctx h) chain (canonExpr ctx w)
+    | .selRel card v h chain => .selRel (lowerStr card) v (canonExpr ctx h) (chain.map canonStep)
+    | .selRelW card v h chain w =>
+        .selRelW (lowerStr card) v (canonExpr ctx h) (chain.map canonStep) (canonExpr ctx w)
     | .forEach v s b => .forEach v s (canonBlock ctx b)
     | .while_ e b => .while_ (canonExpr ctx e) (canonBlock ctx b)
     | .if_ e b elifs els => .if_ (canonExpr ctx e) (canonBlock ctx b) (canonElifs ctx elifs) (canonElse ctx els)
     | .invoke e => .invoke (canonExpr ctx e)
-    | .genEvt l m d to => .genEvt l m (canonParams ctx d) (canonTo ctx to)
-    | .createEvt v l m d to => .createEvt v l m (canonParams ctx d) (canonTo ctx to)
+    | .genEvt l m d to => .genEvt l (canonMeaning ctx l m) (canonParams ctx d) (canonTo ctx to)
+    | .createEvt v l m d to => .createEvt v l (canonMeaning ctx l m) (canonParams ctx d) (canonTo ctx to)
     | .genPre e => .genPre (canonExpr ctx e)
   def canonBlock (ctx : Ctx) : Block → Block
     | .nil => .nil
